@@ -12,7 +12,7 @@ TECHNIQUE = ("bounded-exhaustive enumeration of launch/activity interleavings on
              "ties) x exhaustive tie orders of the unstable sorts, real queue-length / memory-bandwidth series and "
              "the written *_with_counters file vs instant-by-instant recount")
 RULE = ("every multiset of <=U units on grid G_T: kernel pair (stream 7|9, launch start l, kernel start a>=l), copy "
-        "pair (2 copy types + memset, bandwidth 0.5|1.25, length 0|1|2), launch without activity, activity without "
+        "pair (2 copy types + memset, bandwidth 0.5|1.25, length 0|1|2; a second activity name of the first copy type), launch without activity, activity without "
         "launch; a larger kernel-only slice; ranks requested in {None,[0],[1],[0,1]} (rank 1 = fixed world); "
         "epoch 1.7e15; N1: stable, all-reversed and every single tie group permuted; the counter file is generated "
         "and read back for every world. non-trivial = some launch and some activity start share a timestamp on one "
@@ -23,7 +23,8 @@ ASSUMPTIONS = [
     "copy type = first 11 characters of the activity name ('Memcpy DtoH'), 'Memset' for memsets",
 ]
 E0 = 1_700_000_000_000_000
-CT = ["Memcpy DtoH (Device -> Pageable)", "Memcpy HtoD (Pageable -> Device)", "Memset (Device)"]
+CT = ["Memcpy DtoH (Device -> Pageable)", "Memcpy HtoD (Pageable -> Device)", "Memset (Device)",
+      "Memcpy DtoH (Device -> Pinned)"]   # the last one is a second activity name of copy type 0
 BW = [0.5, 1.25]
 
 
@@ -37,6 +38,7 @@ def unit_menu(T: int):
     ks = [["K", st, l, a] for st in (7, 9) for l in range(T) for a in range(l, T + 1)]
     ys = [["Y", c, bw, ln, l, a] for c in range(3) for bw in range(2) for ln in (0, 1, 2)
           for (l, a) in ((0, 0), (0, 1), (1, 2))]
+    ys += [["Y", 3, 0, ln, l, a] for ln in (1, 2) for (l, a) in ((0, 0), (0, 1), (1, 2))]
     us = [["UL", l] for l in (0, 1)] + [["UA", 7, a] for a in (0, 1)] + [["UY", 0, 1, 1, 1]]
     return ks, ys, us
 
